@@ -16,7 +16,7 @@ META = {
     "note": "Trusted: Coq kernel + vm_compute; translator gen/sni_stream.go; harness c14 and its scripted net.Conn; the "
             "model of crypto/tls go1.23 ClientHello unmarshalling and of bufio.Reader is hand-written and exercised by "
             "the correspondence streams (real crypto/tls client hellos, synthetic, mutated, non-TLS), not verified code; "
-            "a connection that returns data together with an error is not modelled; no axioms.",
+            "no axioms.",
     "technique": "Coq proof (builder/parser round trip by induction over the extension list; bufio invariants) + "
                  "go/ast extraction of constants and source skeletons + vm_compute correspondence",
 }
@@ -136,14 +136,15 @@ def to_coq(c):
     ended = {"": 0, "eof": 1}.get(o.get("ended", ""), 7)
     obs = "%d %s %d %s %d %s %d" % (obs_kind(o), hexlist(o.get("name")), o.get("count", 0), hexlist(o.get("first")),
                                   o.get("pulled", 0), rle(o.get("chunks") or []), ended)
+    late = "true" if c.get("late") else "false"
     if c.get("spec"):
         s = c["spec"]
         raw = seg_bytes(c["input"])
         keep = min(len(raw), 5 + c["reclen"])
-        return "HSynth %s %s %s %s %d %s %s %s" % (
+        return "HSynth %s %s %s %s %d %s %s %s %s" % (
             spec_term(s), segs(s.get("extra")), segs(to_segs(raw[:keep])), "true" if s.get("wf") else "false",
-            len(raw) - keep, pairs(c["sched"]), pairs(c["reads"]), obs)
-    return "HSniff %s %s %s %s" % (model_input(c), pairs(c["sched"]), pairs(c["reads"]), obs)
+            len(raw) - keep, pairs(c["sched"]), pairs(c["reads"]), late, obs)
+    return "HSniff %s %s %s %s %s" % (model_input(c), pairs(c["sched"]), pairs(c["reads"]), late, obs)
 
 
 def size_class(n):
@@ -175,7 +176,7 @@ def impl_oracle(c):
             return ("wrong-info", "reported (%s, %d, %s) for a hello that says (%s, %d, %s)" % (
                 bytes.fromhex(o.get("name", "")), o.get("count", 0), bytes.fromhex(o.get("first", "")),
                 bytes.fromhex(w["name"]), w["count"], bytes.fromhex(w["first"])))
-    if c["stream"] in ("nontls", "oversize", "malformed-synth"):
+    if c["stream"] in ("nontls", "oversize", "malformed-synth", "fragmented"):
         if o.get("kind") == "ok" and o.get("name"):
             return ("name-from-bad-input", "input that is not a valid single-record hello gave the name %s"
                     % bytes.fromhex(o["name"]))
@@ -192,7 +193,7 @@ def run(ck):
         resource.setrlimit(resource.RLIMIT_STACK, (resource.RLIM_INFINITY, resource.RLIM_INFINITY))
     except Exception:
         pass
-    ncases = 700 if not ck.thorough else 12000
+    ncases = 600 if not ck.thorough else 12000
     ck.gen()
     built = ck.coq_make(MODEL + PROOFS, clean=ck.thorough)
     ck.obligations = ck.count_statements(STATEMENT_FILES)
@@ -213,7 +214,7 @@ def run(ck):
                 cases.append(json.loads(line))
 
     def replay_of(c):
-        return {k: c[k] for k in ("i", "stream", "desc", "input", "len", "reclen", "sched", "reads", "want", "obs")
+        return {k: c[k] for k in ("i", "stream", "desc", "input", "len", "reclen", "sched", "reads", "late", "to_eof", "want", "obs")
                 if k in c}
 
     for c in cases:
@@ -286,8 +287,8 @@ def run(ck):
                  "modelled not verified: bufio.Reader, crypto/tls go1.23 record layer and clientHelloMsg.unmarshal"],
         rule="seeded generation (splitmix64): crypto/tls client hellos over random configs (names, 0..40 ALPN protocols, "
              "TLS 1.0-1.3, tickets, resumption), synthetic hellos padded to size classes around 4091/4096/8192/16384 and "
-             "beyond, rule-breaking synthetic hellos, byte-level mutations, non-TLS inputs; each with a random "
-             "segmentation and random read sizes; corpus of the failing hellos first; a case is non-trivial unless the "
+             "beyond, record versions 0x0300..0x0fff and >= 0x1000, hellos fragmented over two or three records, "
+             "rule-breaking synthetic hellos, byte-level mutations, non-TLS and SSLv2-style inputs; each with a random "
+             "segmentation, random read sizes and (1 in 4) a connection that reports io.EOF together with its last bytes; corpus of the failing hellos first; a case is non-trivial unless the "
              "stream is empty; distinct = distinct (stream, description, length, segmentation, read sizes, intended info)",
-        assumptions=["the front connection returns data and its end separately (TCP, net.Pipe)",
-                     "go1.23 crypto/tls semantics for the first record (GOTOOLCHAIN=local)"])
+        assumptions=["go1.23 crypto/tls semantics for the first record (GOTOOLCHAIN=local)"])
